@@ -7,7 +7,9 @@
 (* the table of EVERY element of EVERY series and product (outputs,        *)
 (* intermediates whose terms get deleted, products), each requested from   *)
 (* the engine in a seeded random order.  One step per cell: the cell must  *)
-(* satisfy its defining equation of Dsl.tla.                               *)
+(* satisfy its defining equation of Dsl.tla.  Sessions over numpy values   *)
+(* (two inputs; one diagonal block optionally in LINEAR-OPERATOR mode, the *)
+(* operators densified by the harness) are judged by the same equations.   *)
 (***************************************************************************)
 EXTENDS Dsl, Json, IOUtils
 
@@ -20,8 +22,15 @@ Ctx == [nb |-> ses.nb, sizes |-> ses.sizes, E |-> ses.E, keep |-> ses.keep, ords
         splits |-> ses.splits, tab |-> ses.tab, prog |-> ses.prog, startmap |-> ses.startmap]
 W == ses.work[l]
 
-CellOK == IF W.kind = "series" THEN SeriesCellOK(Ctx, ses.prog.series[W.q], W.i, W.j, W.pos)
-          ELSE ProductCellOK(Ctx, ses.prog.products[W.q], W.i, W.j, W.pos)
+\* numeric sessions also log the SECOND return value of series_computation (every series wrapped
+\* into linear operators, densified by the harness): it must denote the same element
+LoOK == ses.haslo = 0 \/
+        ValOf([Ctx EXCEPT !.tab = ses.lotab], W.name, W.i, W.j, W.pos) = ValOf(Ctx, W.name, W.i, W.j, W.pos)
+
+CellOK == /\ CASE W.kind = "series"  -> SeriesCellOK(Ctx, ses.prog.series[W.q], W.i, W.j, W.pos)
+               [] W.kind = "product" -> ProductCellOK(Ctx, ses.prog.products[W.q], W.i, W.j, W.pos)
+               [] W.kind = "input"   -> TRUE          \* inputs are given: only their operator view is judged
+          /\ LoOK
 
 DInit == ses \in AllSessions /\ l = 1 /\ fails = {}
 DStep == /\ l <= Len(ses.work)
